@@ -176,12 +176,13 @@ def r4_unkeyed_state(ctx):
         fields = [fd['name'] for v in a['variants'] for fd in v['fields']]
         ctx.extra.setdefault('generator_fields', {})[adt.rsplit('::', 1)[-1]] = fields
     # who may touch the caches: a second writer with its own idea of the key poisons later answers
+    gate = facts.only_through({MG + '::get_attack_targets'})      # get_attack_targets and helpers that only it calls
     sites = {f.name for f, b in facts.call_sites(TG + '::cache_attack', crate='chess', kinds=('lib', 'bin'))}
-    ctx.ob(rule, TG + '::cache_attack', 'attack cache filled only by MoveGenerator::get_attack_targets', sites == {MG + '::get_attack_targets'},
+    ctx.ob(rule, TG + '::cache_attack', 'attack cache filled only by MoveGenerator::get_attack_targets', bool(sites) and sites <= gate,
            found=sorted(sites), expected=[MG + '::get_attack_targets'],
            why='every cache entry must be written under the key its reader will use (checked for that one site by R1)')
     sites = {f.name for f, b in facts.call_sites(TG + '::get_cached_attack', crate='chess', kinds=('lib', 'bin'))}
-    ctx.ob(rule, TG + '::get_cached_attack', 'attack cache read only by MoveGenerator::get_attack_targets', sites <= {MG + '::get_attack_targets'},
+    ctx.ob(rule, TG + '::get_cached_attack', 'attack cache read only by MoveGenerator::get_attack_targets', sites <= gate,
            found=sorted(sites), expected=[MG + '::get_attack_targets'], nontrivial=False)
     from sa.facts import field_reads
     users = {(f.closure_of or f.name) for f, b, fl in field_reads(facts, TG, 'attacks_cache')} | {(f.closure_of or f.name) for f, b, how, fl in field_writes(facts, TG, 'attacks_cache')}
